@@ -18,13 +18,17 @@ PROP = {'drive': ['T2'], 'modules': ['SfntV.Props.C05'],
                        'C05_flex1_axis',
                        'C05_hflex_returns',
                        'C05_progress_pathop_partial',
+                       'C05_loop_fuel',
+                       'C05_step_consumes',
                        'C05_mul_deviates',
                        'C05_flex1_repaired',
                        'C05_clamp_deviates'],
  'areas': [('t2', 4000, 120000)],
  'rule': 'distinct case lines (charstring bytes, local/global subroutine tables, default/nominal width); '
          'non-trivial = more than 8 code bytes or a designed boundary/fault program',
- 'partial': ['C05_progress_full and C05_quirks_irrelevant_full (whole well-formed programs, WF grammar of '
+ 'partial': ['Fuel: C05_loop_fuel / C05_step_consumes are proved for every quirk setting (the loop result is independent '
+             'of the fuel above code.length; every step consumes code). '
+             'C05_progress_full and C05_quirks_irrelevant_full (whole well-formed programs, WF grammar of '
              'Spec/T2.lean) are stated as definitions and NOT proved; proved is the operator-level part '
              'C05_progress_pathop_partial (every path operator with a TN5177-legal operand count after the first '
              'moveto). Agreement of the Go decoder with the specification interpreter on whole well-formed programs '
